@@ -304,6 +304,55 @@ pub fn fuzz_decode(data: &[u8]) -> (Vec<u8>, [u8; 16], Option<[u8; 16]>, u32) {
     (frame, nwk, if mode & 4 == 4 { None } else { Some(app) }, fcnt)
 }
 
+/// The round-trip clause through the library's own JoinAccept builder: built into a used buffer of
+/// `33|17 + extra` bytes, the parser is judged against the reference on the built bytes, and the reference
+/// decode of those bytes against the description. Ok(false): the builder refused.
+pub fn check_library_built_join_accept(d: &JoinAcceptDesc, key: &[u8; 16], nonce: u16, extra: usize) -> Result<bool, Failure> {
+    let case = || json!({"kind":"join_accept_desc","desc":ja_json(d),"key":hex(key),"dev_nonce":nonce,"buffer_extra":extra});
+    let need = if d.cflist.is_some() { 33 } else { 17 };
+    match catch(|| repo_build_join_accept(d, key, need + extra)) {
+        Err(pm) => Err(Failure::panic(case(), &pm)),
+        Ok(Err(_)) => Ok(false),
+        Ok(Ok(built)) => {
+            let (_, m) = check_join_accept_bytes(&built, key, nonce)?;
+            let back = join_accept_clear(&built, key).ok().map(|c| decode_join_accept_clear(&c));
+            let mut want = d.clone();
+            want.rx_delay &= 0x0f;
+            if !m || back.as_ref() != Some(&want) {
+                return Err(Failure::new("round-trip", case(), format!("a JoinAccept built by the library into a used buffer parses back as {back:?} (authentic: {m}), built from {want:?}")).with_fp("round-trip/library-built-join-accept"));
+            }
+            Ok(true)
+        }
+    }
+}
+
+/// The same for data frames (`buflen` = size of the used caller buffer).
+pub fn check_library_built_data(d: &DataDesc, nwk: &[u8; 16], app: &[u8; 16], buflen: usize, network_crypto: bool) -> Result<bool, Failure> {
+    let case = || json!({"kind":"data_desc","desc":desc_json(d),"nwk":hex(nwk),"app":hex(app),"buflen":buflen,"network_crypto":network_crypto});
+    match catch(|| repo_build_data(d, nwk, Some(app), buflen, network_crypto)) {
+        Err(pm) => Err(Failure::panic(case(), &pm)),
+        Ok(Err(_)) => Ok(false),
+        Ok(Ok((lib, _front))) => {
+            let (_, _, acc) = check_bytes(&lib, nwk, Some(app), d.fcnt)?;
+            let back = decode_data(&lib).ok().map(|v| {
+                let plain = v.plaintext(Some(nwk), Some(app), d.fcnt).filter(|_| v.fport.is_some());
+                (v.ftype, v.dev_addr, v.adr(), v.adr_ack_req(), v.ack(), v.f_pending(), v.fcnt16, v.fopts.clone(), v.fport, plain)
+            });
+            let (wport, wplain) = match &d.payload {
+                RefPayload::None => (None, None),
+                RefPayload::Data { port, data } => (Some(*port), Some(data.clone())),
+                RefPayload::Mac(c) => (Some(0u8), Some(c.clone())),
+            };
+            let up = d.ftype.uplink();
+            let want = (d.ftype, d.dev_addr, d.adr, d.adr_ack_req && up, d.ack, d.f_pending && !up, d.fcnt as u16, d.fopts.clone(), wport, wplain);
+            if !acc || back.as_ref() != Some(&want) {
+                return Err(Failure::new("round-trip", case(), format!("a data frame built by the library parses back as {back:?} (accepted: {acc}), built from {want:?}")).with_fp("round-trip/library-built-data-frame"));
+            }
+            Ok(true)
+        }
+    }
+}
+
 pub fn replay(case: &Value, _kf: &KnownFindings) -> Result<(), Failure> {
     if case["kind"] == "fuzz_raw" {
         let (frame, nwk, app, fcnt) = fuzz_decode(&unhex(case["data"].as_str().unwrap_or("")));
@@ -314,6 +363,8 @@ pub fn replay(case: &Value, _kf: &KnownFindings) -> Result<(), Failure> {
         Some("bytes") => check_bytes(&frame, &key_from_json(&case["nwk"]).unwrap_or([0; 16]), key_from_json(&case["app"]).as_ref(), case["fcnt_arg"].as_u64().unwrap_or(0) as u32).map(|_| ()),
         Some("join_accept_bytes") => check_join_accept_bytes(&frame, &key_from_json(&case["key"]).unwrap_or([0; 16]), case["dev_nonce"].as_u64().unwrap_or(0) as u16).map(|_| ()),
         Some("join_request_bytes") => check_join_request_bytes(&frame, &key_from_json(&case["key"]).unwrap_or([0; 16])).map(|_| ()),
+        Some("join_accept_desc") => check_library_built_join_accept(&ja_from_json(&case["desc"]), &key_from_json(&case["key"]).unwrap_or([0; 16]), case["dev_nonce"].as_u64().unwrap_or(0) as u16, case["buffer_extra"].as_u64().unwrap_or(0) as usize).map(|_| ()),
+        Some("data_desc") => check_library_built_data(&desc_from_json(&case["desc"]), &key_from_json(&case["nwk"]).unwrap_or([0; 16]), &key_from_json(&case["app"]).unwrap_or([0; 16]), case["buflen"].as_u64().unwrap_or(255) as usize, case["network_crypto"].as_bool().unwrap_or(false)).map(|_| ()),
         _ => Err(Failure::new("bad-replay", case.clone(), "unknown case kind")),
     }
 }
@@ -466,6 +517,13 @@ pub fn run(ctx: &mut Ctx) {
             if accepted {
                 st.class("accepted");
             }
+            // the same round trip through the library's own builder (a used caller buffer, longer than the frame
+            // in some cases)
+            if built && muts.is_empty() && *keysel == 0 && crand % 4 == 0 {
+                if check_library_built_data(&d, nwk, app, frame.len() + [0usize, 1, 13][(crand >> 2) as usize % 3], crand & 0x10 != 0)? {
+                    st.class("library-built-data-frame");
+                }
+            }
             // exact round trip for unmutated frames
             if built && muts.is_empty() && *keysel == 0 && fcnt_arg == d.fcnt && !accepted {
                 return Err(Failure::new("round-trip", json!({"kind":"bytes","frame":hex(&frame),"nwk":hex(nwk),"app":hex(app),"fcnt_arg":fcnt_arg}), "a frame built by the reference codec is not accepted"));
@@ -502,6 +560,13 @@ pub fn run(ctx: &mut Ctx) {
             }
             if flips.is_empty() && *sel > 2 && !m {
                 return Err(Failure::new("round-trip", json!({"kind":"join_accept_bytes","frame":hex(&f),"key":hex(key),"dev_nonce":nonce}), "reference-built JoinAccept not accepted").with_fp("join-accept-authentic-rejected"));
+            }
+            // "parsing any built frame returns the description it was built from": the library's own builder
+            // into a used caller buffer that may be longer than the frame
+            if repo_cflist(&d.cflist).is_some() {
+                if check_library_built_join_accept(d, key, *nonce, [0usize, 0, 1, 16, 222][(*x % 5) as usize])? {
+                    st.class("library-built-join-accept");
+                }
             }
             // JoinRequest
             let jr = JoinReqDesc { join_eui: (d.join_nonce as u64) << 32 | d.dev_addr as u64, dev_eui: (d.net_id as u64) << 40 | *nonce as u64, dev_nonce: *nonce };
